@@ -1,14 +1,16 @@
 # Table read by gen_manifest.py.  add(pid, engine, technique, level text, design ref, level note)
 HOOKS = {
     "guard": "rarena_verif",
-    "enable": "none needed at present: Engine K overlays its harness modules into a scratch copy of /repo (cfg(kani)); no source hook has been committed to /repo",
+    "enable": "RUSTFLAGS=\"--cfg rarena_verif\" (only the native replay harness of Engine M is built that way; Engine K overlays cfg(kani) harness modules into a scratch copy and Engine M dumps MIR with the cfg off)",
     "baseline_off_cmd": "cd /repo && cargo test --workspace --no-fail-fast --offline",
-    "source_commits": [],
+    "source_commits": ["0d10850"],
     "add_only": True,
 }
 ENGINES = [
     {"name": "K", "path": "/verif/engine_k", "kind_free_text": "Kani 0.68 / CBMC 6.11 bounded model checking of the real crate; harness modules overlaid into a scratch copy of /repo's working tree on every run",
-     "serves_properties": ["C01", "C03", "C04", "C08", "C10", "C14", "C15", "C16", "C17", "C19", "C20"]},
+     "serves_properties": ["C01", "C03", "C04", "C08", "C09", "C10", "C11", "C13", "C14", "C15", "C16", "C17", "C18", "C19", "C20"]},
+    {"name": "M", "path": "/verif/mirsmt", "kind_free_text": "mirsmt: own MIR->SMT bounded model checker for thread interleavings, crash points and happens-before (nightly -Zunpretty=mir dump of the current tree -> per-thread guarded transition systems -> plan-based unrolling -> z3 bit-blast+SAT); counterexamples are replayed on the real code through the cfg(rarena_verif) atomics hook",
+     "serves_properties": ["C02", "C06", "C07", "C12"]},
 ]
 NOTES = ("Exit codes of ./check: 0 held / 1 reproduced unlisted VIOLATION / 2 machinery could not decide (never disguised as 0). "
          "Known findings: /verif/known_findings.json. Design: /verif/DESIGN.md.")
@@ -26,14 +28,16 @@ add("C17", "K", "Kani/CBMC: rewind over the full u32/i64 position range against 
 add("C19", "K", "Kani/CBMC: recording checksummer shows the update slices tile allocated_memory()[reserved..]", "Real 4096-byte page size, CAP = 3 pages + 64, any cursor, reserved <= 64: chunks are contiguous, in order, cover exactly the range.", "DESIGN.md#c19", K_NOTE)
 add("C20", "K", KT + " with a discarded-delta oracle", "Delta of discarded() per operation from any INV state equals the oracle; discard_freelist returns the list sum and empties the list.", "DESIGN.md#c20", K_NOTE)
 
+add("C09", "K", "Kani/CBMC: sanity_check decided for all 2^64 identification-byte values; read-only arena mutators with a witness byte", "The identification check every open runs is decided exhaustively (memmap feature build); on an arena whose read-only flag is set every mutating call of the safe API is refused and no byte changes. Not covered: the order of effects inside the mmap-based open closures (FFI).", "DESIGN.md#c09", K_NOTE)
+add("C11", "K", "Kani/CBMC differential: the same symbolic INV state and call on one arena of each flavour", "Same results, observables and free-list contents for alloc_bytes / aligned / typed / dealloc / discard_freelist / rewind / knobs / clear from any INV state (CAP=96, <=2 nodes).", "DESIGN.md#c11", K_NOTE)
+add("C13", "K", "Kani/CBMC twin-arena differential: Drop vs. one explicit dealloc of the buffer extent; drop counters; refs()", "Dropping a handle (borrowed, owned, typed with a Drop value) leaves exactly the state one dealloc of its extent leaves, detached handles release nothing, values are dropped exactly once, refs() counts live arena values over clone/owned/drop orders; Kani's pointer checks catch use-after-free/double free. Multi-threaded clone/drop is not covered.", "DESIGN.md#c13", K_NOTE)
+add("C18", "K", "Kani/CBMC: truncate from history-built states with symbolic contents / follow-up request", "capacity == max(n, allocated), observables, free list and every byte below the cursor unchanged, follow-up allocation succeeds iff it fits or the list serves it; new size concrete per harness in the quick tier (symbolic in thorough), Vec backing only.", "DESIGN.md#c18", K_NOTE)
+MT = "mirsmt: MIR->SMT bounded model checking of thread interleavings (z3 bit-blast + SAT), counterexamples replayed natively through the rarena_verif hook"
+add("C02", "M", MT, "For each listed family (two threads running alloc/dealloc programs from a set-up arena state, symbolic request sizes, all schedules with <= 2 (quick) / 3 (thorough) context switches): no overlap of live ranges, no range outside the data area, no change of a live buffer's bytes, no invalid atomic access, no panic.", "DESIGN.md#c02", M_NOTE)
+add("C06", "M", MT + "; crash point = solver-chosen step", "The victim thread dies after any number of steps of its operation, the file image is reopened (zeroing above the stored cursor as map_mut does), a fresh thread runs one more operation: cursor in range, ranges returned before the crash stay exclusive, the operation terminates.", "DESIGN.md#c06", M_NOTE)
+add("C07", "M", MT + "; spin-wait (stutter) detection", "No reachable state in which a thread repeats a state-preserving step while every other thread has finished, and every thread finishes within its step bound, for all schedules of the family shapes.", "DESIGN.md#c07", M_NOTE)
+add("C12", "M", MT + "; vector clocks from the Ordering constants in the MIR", "No pair of non-atomic accesses (client write/read, arena zeroing) to a solver-chosen witness byte by different threads without a happens-before edge built from the orderings the code passes; teardown (unmount) is not covered.", "DESIGN.md#c12", M_NOTE)
+
 NOT_APPLICABLE = {
- "C02": "Engine M (MIR->SMT interleaving BMC) is under construction; not claimed until its queries run end-to-end",
- "C05": "reopen path is mmap/file I/O (FFI); Engine M effects mode not yet built",
- "C06": "Engine M crash queries not yet built",
- "C07": "Engine M lasso queries not yet built",
- "C09": "Kani harnesses for sanity_check/read-only mutators not yet registered",
- "C11": "differential sync/unsync harnesses not yet built",
- "C12": "Engine M happens-before queries not yet built",
- "C13": "handle-layer harnesses not yet built",
- "C18": "truncate harnesses not yet built",
+ "C05": "the reopen path (map_mut / map / map_copy closures in memory.rs) is mmap and file I/O behind FFI: Kani cannot execute it and the MIR->SMT encoder has no model of the mapping objects; what is solver-decidable about reopening (the identification check, the zeroing above the cursor in the crash model of C06, data_offset formulae) is claimed under C09, C06 and C16 instead",
 }
